@@ -52,7 +52,7 @@ _PARSE = {
     "self.descriptor_id == parse_int(big_smiles_ext[2:len(big_smiles_ext) - 1].strip()))": "a-written-id-is-the-number-between-symbol-and-bracket",
     "implies(not is_none(self.transitions), len(self.transitions) != 1 and self.weight == rsum(self.transitions))": "a-transition-list-has-not-one-entry-and-its-sum-is-the-weight",
 }
-contract("bond.BondDescriptor.__init__#parse", props=["C02", "C15"],
+contract("bond.BondDescriptor.__init__#parse", props=["C02", "C15"], merge_ifs=True,
          clause_props={"stereo-characters-are-rejected": ["C15"], "only-bracketed-texts-with-a-known-symbol-are-accepted": ["C15", "C02"]},
          params=dict(self=Ref("BondDescriptor"), big_smiles_ext=STR, descr_num=INT, preceding_characters=STR, atom_bonding_to=Opt(INT)), returns=None,
          ensures=list(_PARSE), labels=_PARSE,
